@@ -218,7 +218,7 @@ var c14Profile = &sim.Profile{
 func init() {
 	register(&Check{
 		ID: "C14", Level: "exploration",
-		Rule: "interleaved OAuth2 starts and callbacks over 3 browsers x 2 providers; state strings: the session's own, empty, prefix, extended, case-flipped, another browser's, spent, garbage; codes: valid, bogus, minted by the other provider, provider error; provider-reported uids from a hostile corpus (';', ';;', 'oauth2;;alpha;;x', NUL, non-ASCII, 4 KB, blank). The fake provider's tables are the ground truth of which identity was reported. Oracle: a callback touches users or sets uid only if its state equals the value issued to THIS browser by a start request and not yet matched; a matching callback leaves no state behind; on success uid == Make(provider-of-callback, reported uid) and the stored user carries that pair; provider errors and failed exchanges log nobody in. Plus a codec sweep: generated (provider,uid) pairs (provider from [a-z0-9_-]+) never collide and Parse(Make()) never yields a different pair. distinct_nontrivial = distinct (state class, code class, session state, uid class, error-handler kind, uid outcome, diff size) signatures.",
+		Rule:  "interleaved OAuth2 starts and callbacks over 3 browsers x 2 providers; state strings: the session's own, empty, prefix, extended, case-flipped, another browser's, spent, garbage; codes: valid, bogus, minted by the other provider, provider error; provider-reported uids from a hostile corpus (';', ';;', 'oauth2;;alpha;;x', NUL, non-ASCII, 4 KB, blank). The fake provider's tables are the ground truth of which identity was reported. Oracle: a callback touches users or sets uid only if its state equals the value issued to THIS browser by a start request and not yet matched; a matching callback leaves no state behind; on success uid == Make(provider-of-callback, reported uid) and the stored user carries that pair; provider errors and failed exchanges log nobody in. Plus a codec sweep: generated (provider,uid) pairs (provider from [a-z0-9_-]+) never collide and Parse(Make()) never yields a different pair. distinct_nontrivial = distinct (state class, code class, session state, uid class, error-handler kind, uid outcome, diff size) signatures.",
 		Units: func(t string) int { return tierN(t, 640, 30000) },
 		Run: func(c *RunCtx, unit int) {
 			r := Rng(c.Seed, "C14", unit)
